@@ -37,6 +37,9 @@ pub enum Status {
     Died(String),
     /// configuration rejected (invalid key or value)
     BadConfig(String),
+    /// the harness itself could not run the case (worker could not be started, protocol error):
+    /// inconclusive, never a verdict about rustfmt
+    Infra(String),
 }
 
 #[derive(Clone, Debug)]
@@ -197,6 +200,7 @@ fn enc_out(o: &FmtOut) -> String {
         Status::Timeout => "timeout -".to_string(),
         Status::Died(e) => format!("died {}", enc_str(e)),
         Status::BadConfig(e) => format!("badconfig {}", enc_str(e)),
+        Status::Infra(e) => format!("infra {}", enc_str(e)),
     };
     let flags: String = o.flags.iter().map(|b| if *b { '1' } else { '0' }).collect();
     let entries = if o.entries.is_empty() {
@@ -221,6 +225,7 @@ fn dec_out(line: &str) -> Option<FmtOut> {
         "timeout" => Status::Timeout,
         "died" => Status::Died(msg),
         "badconfig" => Status::BadConfig(msg),
+        "infra" => Status::Infra(msg),
         _ => return None,
     };
     let out = dec_str(p[2])?;
@@ -364,7 +369,7 @@ pub fn run_jobs(jobs: &[Job], workers: usize, timeout: Duration) -> Vec<FmtOut> 
                     res = Some(FmtOut::empty(Status::Died(st)));
                     wk = spawn_worker(t);
                 }
-                results.lock().unwrap()[i] = Some(res.unwrap_or_else(|| FmtOut::empty(Status::Died("protocol".into()))));
+                results.lock().unwrap()[i] = Some(res.unwrap_or_else(|| FmtOut::empty(Status::Infra("protocol".into()))));
             }
         }));
     }
@@ -372,5 +377,5 @@ pub fn run_jobs(jobs: &[Job], workers: usize, timeout: Duration) -> Vec<FmtOut> 
         let _ = h.join();
     }
     let r = std::mem::take(&mut *results.lock().unwrap());
-    r.into_iter().map(|o| o.unwrap_or_else(|| FmtOut::empty(Status::Died("lost".into())))).collect()
+    r.into_iter().map(|o| o.unwrap_or_else(|| FmtOut::empty(Status::Infra("lost".into())))).collect()
 }
